@@ -758,6 +758,23 @@ def wrapper_worker(part, job):
         v, f, _ = mesh.merge_vertices(np.asarray(tm.vertices), np.asarray(tm.faces), 1e-7)
         box = (ins.min(axis=0) - 8.0, ins.max(axis=0) + 8.0)
         surface_oracle(part, v, f, ins, outs, box, case, "wrapper:%s" % which)
+        # what the mesh object says about its own orientation agrees with its triangles: the vertex normals it carries point to the
+        # same side as the (area-weighted) normals of the faces round each vertex, in the molecule's frame
+        try:
+            vn = np.asarray(tm.vertex_normals, dtype=float)
+            tv, tf = np.asarray(tm.vertices, dtype=float), np.asarray(tm.faces)
+            fn_ = np.cross(tv[tf[:, 1]] - tv[tf[:, 0]], tv[tf[:, 2]] - tv[tf[:, 0]])
+            acc = np.zeros_like(tv)
+            for k_ in range(3):
+                np.add.at(acc, tf[:, k_], fn_)
+            nrm = np.linalg.norm(acc, axis=1)
+            ok_ = nrm > 1e-12
+            cosang = np.sum(vn[ok_] * acc[ok_], axis=1) / (nrm[ok_] * np.maximum(np.linalg.norm(vn[ok_], axis=1), 1e-300))
+            if vn.shape != tv.shape or not (np.mean(cosang > 0.7) >= 0.98):
+                part.fail("wrapper-vertex-normals:%s" % which, "the mesh returned by the %s wrapper carries vertex normals that disagree with its own triangles (%.0f%% of the vertices within 45 degrees)"
+                          % (which, 100.0 * float(np.mean(cosang > 0.7)) if vn.shape == tv.shape else 0.0), case)
+        except Exception as e:
+            part.fail("wrapper-vertex-normals-raise:%s" % which, "reading vertex_normals of the mesh returned by the %s wrapper raised %r" % (which, e), case)
     part.outcome((which, arg))
     part.nstates(1)
 
